@@ -226,49 +226,74 @@ def rows (p : Part) (o : Opts) : Option (List Row) := do
 
 -- rest arrays ------------------------------------------------------
 
-def setAt {α : Type} : List α → Nat → α → List α
-  | [], _, _ => []
-  | _ :: l, 0, a => a :: l
-  | b :: l, i + 1, a => b :: setAt l i a
+/-- the four float columns as they are stored (`store` = rounding to float32) -/
+def storeRow (store : Rat → Rat) (r : Row) : Row :=
+  { r with onsetBeat := store r.onsetBeat, durBeat := store r.durBeat,
+           onsetQuarter := store r.onsetQuarter, durQuarter := store r.durQuarter }
 
-/-- one pass of `collapse_rests` (repaired: the quarter duration is summed like the beat and div
-    durations): returns the kept rows and whether anything was merged -/
-def collapsePass (rows : List Row) : List Row × Bool :=
-  let n := rows.length
-  let step := fun (st : List Row × List Nat × List Nat) (i : Nat) =>
-    let (rs, filt, out) := st
-    if filt.contains i then st else
-    match rs[i]? with
-    | none => st
-    | some r =>
-      let target := r.onsetBeat + r.durBeat
-      let idxs := (List.range n).filter fun j =>
-        match rs[j]? with
-        | some x => decide (x.onsetBeat = target) && decide (x.voice = r.voice)
-        | none => false
-      let (rs', filt') := idxs.foldl (fun (acc : List Row × List Nat) j =>
-          let (rs, filt) := acc
-          match rs[i]?, rs[j]? with
-          | some ri, some rj =>
-            (setAt rs i { ri with durBeat := ri.durBeat + rj.durBeat, durDiv := ri.durDiv + rj.durDiv, durQuarter := ri.durQuarter + rj.durQuarter },
-             filt ++ [j])
-          | _, _ => acc) (rs, filt)
-      (rs', filt', out ++ [i])
-  let (rs, filt, out) := (List.range n).foldl step (rows, [], [])
-  (out.filterMap (rs[·]?), !filt.isEmpty)
+/-- `rest_array[i][duration_*] = rest[duration_*] + rest_array[idx][duration_*]` (repaired: the quarter
+    duration is summed like the beat and div durations); float32 sums are rounded by `store` -/
+def absorbS (store : Rat → Rat) (acc x : Row) : Row :=
+  { acc with durBeat := store (acc.durBeat + x.durBeat), durDiv := acc.durDiv + x.durDiv,
+             durQuarter := store (acc.durQuarter + x.durQuarter) }
 
-/-- `rec_collapse_rests`: repeat until a pass merges nothing (every merging pass drops a row) -/
-def recCollapse : Nat → List Row → List Row
+/-- `(rest_array["onset_div"] == target) & (rest_array["voice"] == voice)` (repaired: the integer division
+    columns decide what is adjacent; float32 beat sums missed e.g. 1/3 + 4/3 = 5/3) -/
+def hits (target : Int) (voice : Int) (x : Row) : Bool :=
+  decide (x.onsetDiv = target) && decide (x.voice = voice)
+
+/-- `for idx in idxs: ...` over a stretch of the array, in index order -/
+def absorbAll (store : Rat → Rat) (target : Int) (voice : Int) (acc : Row) : List Row → Row
+  | [] => acc
+  | x :: l => absorbAll store target voice (if hits target voice x then absorbS store acc x else acc) l
+
+/-- the body of the loop of `collapse_rests` for a row `c` that has not been absorbed: `pre` are the rows
+    before it (as they are now), `post` the rows after it (never modified before their turn).  `idxs` is
+    computed once, from the offset `c` has when its turn comes; `rest` is a view of `rest_array[i]`, so a
+    row that starts where it ends itself (duration 0) adds its own current duration.
+    Returns the new row and whether `idxs` was non-empty. -/
+def visitRow (store : Rat → Rat) (pre : List (Row × Bool)) (c : Row) (post : List Row) : Row × Bool :=
+  let target := c.onsetDiv + c.durDiv
+  let a1 := absorbAll store target c.voice c (pre.map (·.1))
+  let a2 := if hits target c.voice c then absorbS store a1 a1 else a1
+  let a3 := absorbAll store target c.voice a2 post
+  (a3, (pre.any fun x => hits target c.voice x.1) || hits target c.voice c || post.any (hits target c.voice))
+
+/-- one pass of `collapse_rests`.  `pre`: the rows already passed with the flag "is in output_idx";
+    `tg`: the (onset_div, voice) keys that were looked for and found — a row is in `filter_idx` exactly
+    when its key is one of them (all rows with the key are absorbed together). -/
+def passS (store : Rat → Rat) :
+    List (Row × Bool) → List (Int × Int) → List Row → List (Row × Bool) × List (Int × Int)
+  | pre, tg, [] => (pre, tg)
+  | pre, tg, c :: post =>
+    if tg.contains (c.onsetDiv, c.voice) then passS store (pre ++ [(c, false)]) tg post
+    else
+      let v := visitRow store pre c post
+      passS store (pre ++ [(v.1, true)])
+        (if v.2 then (c.onsetDiv + c.durDiv, c.voice) :: tg else tg) post
+
+/-- `collapse_rests`: the kept rows and whether anything was merged (`len(filter_idx) > 0`) -/
+def collapsePass (store : Rat → Rat) (rows : List Row) : List Row × Bool :=
+  let r := passS store [] [] rows
+  ((r.1.filter (·.2)).map (·.1), !r.2.isEmpty)
+
+/-- `rec_collapse_rests`: repeat until a pass merges nothing.  (A pass that merges drops a row unless a
+    rest of duration 0 absorbs itself; Python then loops forever, the model stops when the fuel is spent.) -/
+def recCollapse (store : Rat → Rat) : Nat → List Row → List Row
   | 0, rows => rows
   | fuel + 1, rows =>
-    let (rs, again) := collapsePass rows
-    if again then recCollapse fuel rs else rs
+    let r := collapsePass store rows
+    if r.2 then recCollapse store fuel r.1 else r.1
 
-/-- `rest_array_from_part` -/
-def restRows (p : Part) (collapse : Bool) : Option (List Row) := do
+/-- `rest_array_from_part`; `store` is the rounding of the float columns (float32): merged beat and quarter
+    durations are float32 sums -/
+def restRowsWith (store : Rat → Rat) (p : Part) (collapse : Bool) : Option (List Row) := do
   let rs ← mapM' (restRow p.notes p.maps) (restsOf p.notes)
   let t := sortRows (sanitizeVoices rs)
-  pure (if collapse then recCollapse (t.length + 1) t else t)
+  pure (if collapse then recCollapse store (t.length + 1) (t.map (storeRow store)) else t)
+
+/-- ... in exact arithmetic -/
+def restRows (p : Part) (collapse : Bool) : Option (List Row) := restRowsWith id p collapse
 
 -- ------------------------------------------------------------------ several parts
 
